@@ -1133,6 +1133,11 @@ def run_agree(ctx, pair, orc, rng, quick, nmodels):
                      ("sensors", bool(mdl.sensors)), ("mocap", mdl.nmocap > 0)):
             if v:
                 hist[k] = hist.get(k, 0) + 1
+        if mdl.options["cone"] == "elliptic" and not any(c["dim"] > 1 for c in json.loads(pair.h.ask("out contacts"))["contacts"]):
+            # no candidate pair of condim > 1 after contype/conaffinity filtering: finding c43:elliptic-no-contact-typeerror (directed case 1)
+            hist["models skipped: elliptic cone without a frictional contact candidate (finding, directed case 1)"] = \
+                hist.get("models skipped: elliptic cone without a frictional contact candidate (finding, directed case 1)", 0) + 1
+            continue
         mask = {"sensordata": pair.static_acc_slots()}
         if mask["sensordata"]:
             hist["models with a linear-acceleration sensor on a static body (slots masked: finding, directed case 16)"] = \
